@@ -7,6 +7,7 @@ package props
 import (
 	"fmt"
 	"net"
+	"sort"
 	"testing"
 
 	kcp "github.com/xtaci/kcp-go/v5"
@@ -207,7 +208,27 @@ func TestC04Core(t *testing.T) {
 	rapid.Check(t, func(rt *rapid.T) {
 		cfg := sim.DrawCoreCfg(rt)
 		fs := sim.DrawFateScript(rt, opts)
-		app := drawCoreApps(rt, cfg, 30, 120_000)
+		var mtuDrops []mtuChange
+		if cfg.Stream {
+			for i, n := 0, rapid.SampledFrom([]int{0, 1, 2, 3}).Draw(rt, "nMtuDrops"); i < n; i++ {
+				mtuDrops = append(mtuDrops, mtuChange{At: int64(rapid.SampledFrom([]int{30, 150, 400, 1200, 5000, 20_000}).Draw(rt, "mtuAt")), EP: rapid.IntRange(0, 1).Draw(rt, "mtuEP"), MTU: rapid.IntRange(60, 1300).Draw(rt, "mtuTo")})
+			}
+			sort.SliceStable(mtuDrops, func(i, j int) bool { return mtuDrops[i].At < mtuDrops[j].At })
+		}
+		// a stream write is cut into segments of the mss in force when it is made,
+		// and one write may not exceed 255 segments: the application sizes its
+		// writes for the smallest MTU its sender will have
+		sizing := cfg
+		for _, m := range mtuDrops {
+			cur := sizing.EP[m.EP].MTU
+			if cur == 0 {
+				cur = 1400
+			}
+			if m.MTU < cur {
+				sizing.EP[m.EP].MTU = m.MTU
+			}
+		}
+		app := drawCoreApps(rt, sizing, 30, 120_000)
 		// stalled readers fill the delivery queue
 		for w := 0; w < 2; w++ {
 			if rapid.IntRange(0, 1).Draw(rt, "stall") == 0 {
@@ -217,15 +238,29 @@ func TestC04Core(t *testing.T) {
 				app[w].Backlog = 4 * cfg.EP[w].SndWnd
 			}
 		}
+		mtuLowered := 0
 		var st sim.CoreStats
 		var obs c04Obs
 		rapid.SyncTest(rt, func(rt *rapid.T) {
 			s := sim.NewCoreSim(cfg, fs, app)
+			// stream mode: the application may lower the MTU in mid-connection (an
+			// application that sees timeouts and suspects a path-MTU black hole does
+			// exactly that, right after a timeout); the window rules are counted in
+			// segments and do not care
+			for _, m := range mtuDrops {
+				m := m
+				s.Ops = append(s.Ops, sim.TimedOp{At: m.At, Name: fmt.Sprintf("SetMtu(%d) at endpoint %d", m.MTU, m.EP), Fn: func(s *sim.CoreSim) error {
+					if s.K[m.EP].SetMtu(m.MTU) == 0 {
+						mtuLowered++
+					}
+					return nil
+				}})
+			}
 			attachC04(s, &obs)
 			err := s.Run(fs.EndTime() + 400_000)
 			st = s.Stats
 			if err != nil {
-				rt.Fatalf("C04 (raw core): %v\ncase: %+v", err, describeCore(cfg, fs, app))
+				rt.Fatalf("C04 (raw core): %v\nMTU lowered in mid-connection: %+v\ncase: %+v", err, mtuDrops, describeCore(cfg, fs, app))
 			}
 		})
 		cl := coreClasses(&st)
@@ -241,7 +276,10 @@ func TestC04Core(t *testing.T) {
 		if obs.knownCwnd > 0 {
 			rec.Exclude("C04:new-sn-after-timeout-once-fast-retransmit-reopens-cwnd")
 		}
-		rec.Case(hx.Hash64(cfg, fs.Describe(), app), obs.fullRcvQ || obs.fullSndWnd || obs.timeoutNC0, cl...)
+		if mtuLowered > 0 {
+			cl = append(cl, "mtu_lowered_in_mid_connection")
+		}
+		rec.Case(hx.Hash64(cfg, fs.Describe(), app, mtuDrops), obs.fullRcvQ || obs.fullSndWnd || obs.timeoutNC0, cl...)
 		if rec.WantSample() {
 			d := describeCore(cfg, fs, app)
 			d["stats"] = st
